@@ -48,8 +48,14 @@ func loadEngine(repo string, patterns []string, specDir string) (*Engine, error)
 	if len(errs) > 0 {
 		return nil, fmt.Errorf("BUILD-FAILED: the repository does not type-check:\n%s", strings.Join(errs, "\n"))
 	}
-	prog, _ := ssautil.AllPackages(pkgs, ssa.InstantiateGenerics|ssa.GlobalDebug)
-	prog.Build()
+	prog, roots := ssautil.AllPackages(pkgs, ssa.InstantiateGenerics|ssa.GlobalDebug)
+	// function bodies are built per package on demand (the requested packages
+	// now, callees' packages when they are first inlined)
+	for _, p := range roots {
+		if p != nil {
+			p.Build()
+		}
+	}
 	e := &Engine{repo: repo, prog: prog, pkgs: map[string]*ssa.Package{}, tids: map[string]int{},
 		used: map[*VC]map[string]bool{}, usedFC: map[string]bool{}}
 	for _, p := range prog.AllPackages() {
@@ -177,6 +183,17 @@ func (e *Engine) contractFor(fn *ssa.Function) *FuncContract {
 	return e.contracts.Funcs[pkg+"::"+key]
 }
 
+// ensureBuilt builds the SSA bodies of fn's package if that has not happened yet.
+func (e *Engine) ensureBuilt(fn *ssa.Function) {
+	o := fn
+	if fn.Origin() != nil {
+		o = fn.Origin()
+	}
+	if o.Pkg != nil && strings.HasPrefix(o.Pkg.Pkg.Path(), modulePath) {
+		o.Pkg.Build()
+	}
+}
+
 func (e *Engine) inlinable(fn *ssa.Function) bool {
 	if fn.Synthetic != "" && fn.Blocks != nil && (strings.HasPrefix(fn.Synthetic, "wrapper") || strings.HasPrefix(fn.Synthetic, "bound") || strings.HasPrefix(fn.Synthetic, "thunk")) {
 		return true // promoted-method wrappers: load the embedded field and forward
@@ -194,30 +211,69 @@ var inlineStdlib = map[string]bool{}
 // findFunc resolves a contract key to the SSA function(s) it names (several
 // for generic functions: one per instance in the program).
 func (e *Engine) findFuncs(pkgPath, key string) []*ssa.Function {
-	var out []*ssa.Function
-	seen := map[*ssa.Function]bool{}
-	add := func(fn *ssa.Function) {
-		if fn == nil || seen[fn] {
-			return
-		}
-		p, k := funcKey(fn)
-		if p != pkgPath {
-			return
-		}
-		if k == key && len(fn.TypeArgs()) == 0 && fn.TypeParams().Len() == 0 {
-			seen[fn] = true
-			out = append(out, fn)
-		}
-		if len(fn.TypeArgs()) > 0 && (k == key || instanceKey(fn) == key) {
-			seen[fn] = true
-			out = append(out, fn)
-		}
+	sp := e.pkgs[pkgPath]
+	if sp == nil {
+		return nil
 	}
-	for fn := range ssautil.AllFunctions(e.prog) {
-		add(fn)
+	if traceOn {
+		fmt.Fprintln(os.Stderr, "findFuncs: building", pkgPath)
 	}
-	sort.Slice(out, func(i, j int) bool { return out[i].String() < out[j].String() })
-	return out
+	sp.Build()
+	if traceOn {
+		fmt.Fprintln(os.Stderr, "findFuncs: built")
+	}
+	// plain function
+	if !strings.HasPrefix(key, "(") {
+		if fn := sp.Func(key); fn != nil {
+			return []*ssa.Function{fn}
+		}
+		return nil
+	}
+	// method: (T).M or (*T).M
+	k := strings.Index(key, ").")
+	if k < 0 {
+		return nil
+	}
+	recv, name := key[1:k], key[k+2:]
+	ptr := strings.HasPrefix(recv, "*")
+	recv = strings.TrimPrefix(recv, "*")
+	tn := sp.Type(recv)
+	if tn == nil {
+		return nil
+	}
+	named, ok := tn.Type().(*types.Named)
+	if !ok {
+		return nil
+	}
+	if named.TypeParams().Len() > 0 {
+		// generic receiver: every instance the program uses
+		var out []*ssa.Function
+		for fn := range ssautil.AllFunctions(e.prog) {
+			p, kk := funcKey(fn)
+			if p == pkgPath && len(fn.TypeArgs()) > 0 && (kk == key || instanceKey(fn) == key) {
+				out = append(out, fn)
+			}
+		}
+		sort.Slice(out, func(i, j int) bool { return out[i].String() < out[j].String() })
+		return out
+	}
+	var t types.Type = named
+	if ptr {
+		t = types.NewPointer(named)
+	}
+	sel := e.prog.MethodSets.MethodSet(t).Lookup(sp.Pkg, name)
+	if sel == nil {
+		return nil
+	}
+	fn := e.prog.MethodValue(sel)
+	if fn == nil {
+		return nil
+	}
+	// the contract key must name the declared receiver form
+	if _, kk := funcKey(fn); kk != key {
+		return nil
+	}
+	return []*ssa.Function{fn}
 }
 
 func (e *Engine) lookupType(pkg *types.Package, name string) types.Type {
